@@ -95,6 +95,24 @@ let rec vval = function
   | WList l -> VL (List.map vval l)
   | WErr e -> VE (exn_name e)
 
+let exn_of_name = function
+  | "ValueError" -> ValueError | "TypeError" -> TypeError | "IndexError" -> IndexError
+  | "KeyError" -> KeyError | "AttributeError" -> AttributeError | "AssertionError" -> AssertionError
+  | "RecursionError" -> RecursionError | "MemoryError" -> MemoryError | _ -> OtherError
+let rec wval = function
+  | VS l -> WStr (str_of_ints l)
+  | VNone -> WNone
+  | VI i -> if i >= 0 then WNat (n_of_int i) else WErr OtherError
+  | VB b -> WBool b
+  | VL l -> WList (List.map wval l)
+  | VE e -> WErr (exn_of_name e)
+
+(* theorem predicates and known-finding classifiers: list val -> bool *)
+let preds : (string * (val0 list -> bool)) list = [
+  ("c10_pred", c10_pred);
+  ("c10_trans_pred", c10_trans_pred);
+]
+
 let backend = function "py" -> BPy | "c" -> BC | _ -> failwith "backend"
 
 let dispatch fn args =
@@ -110,6 +128,7 @@ let dispatch fn args =
   | "unquote", [i; a] -> vs (unquote_n b (nat_of_int (gi i)) (gs a))
   | "observe", [p; pr] -> vval (run_observe oracles b (n_of_int (gi p)) (prog pr))
   | "compare", [p1; p2] -> vval (run_compare oracles b (prog p1) (prog p2))
+  | p, args when List.mem_assoc p preds -> VB ((List.assoc p preds) (List.map wval args))
   | "c15_np_pred", [a; VS o] -> VB (c15_np_pred (gs a) (str_of_ints o))
   | "c15_np_pred", [_; _] -> VB false
   | _ -> failwith ("unknown function " ^ fn)
